@@ -1,11 +1,13 @@
 import PdfModel.Core.Proto
 import PdfModel.Model.Offsets
 import PdfModel.Drv.C02
+import PdfModel.Model.OffsetsConcrete
 
 /-! Line-protocol handler for the C17 streams.
 
   c17.start <hex>        → `ok <pos>` | `err`                      locateStart
   c17.xref <hex>         → `ok <value>` | `err`                    locateXref
+  c17.xrefc <hex>        → `ok <value>` | `err`                    locateXrefC (the twin on `Model/Lexer.lean`)
   c17.word <hex>         → `ok <lexeme-hex> <cursor>` | `err`      nextWord (cursor = bytes consumed)
   c17.usize <hex>        → `ok <n>` | `err`                        parseUsize
   c17.load <hex> <fuel> <X-table> <O-table>
@@ -196,6 +198,10 @@ def handle (args : List String) : String :=
   | ["c17.xref", h] =>
     match bytesOfHex h with
     | some b => showOutNat (locateXref b)
+    | none => "bad-request"
+  | ["c17.xrefc", h] =>
+    match bytesOfHex h with
+    | some b => showOutNat (locateXrefC b)
     | none => "bad-request"
   | ["c17.word", h] =>
     match bytesOfHex h with
